@@ -19,6 +19,7 @@ unchanged.  This module folds such edits back, on the syntax tree, so that the r
                      `for ..: if c: return True` + `return False` -> `return any(c for ..)`;
                      `for ..: if c: return e` + `return d` -> `return next((e for .. if c), d)`.
   * table-dispatch   a lookup in a literal dict keyed by constants becomes the equivalent if/elif chain.
+  * implied-test     a test decided by an enclosing test of the same key against constants: the dead branch goes.
   * merged-if        `if a: if b: BODY` -> `if a and b: BODY`.
   * discard-to-remove `s.discard(e)` -> `if e in s: s.remove(e)`.
   * folded-condition `x = E` + `if x:` (only read of x) -> `if E:`.
@@ -91,7 +92,8 @@ def simple_const(v):
         e = v
         while isinstance(e, ast.Attribute):
             e = e.value
-        return isinstance(e, ast.Name) and e.id[:1].isupper()
+        # Enum.MEMBER / Class.CONSTANT, or a class reached through its module (ast.And)
+        return isinstance(e, ast.Name) and (e.id[:1].isupper() or v.attr[:1].isupper())
     if isinstance(v, (ast.List, ast.Tuple, ast.Set)):
         return all(simple_const(x) for x in v.elts)
     return False
@@ -465,6 +467,18 @@ class Canonicaliser:
         self.inlined = set()   # helper units folded at least once
         # a module function of the reference that now lives, unchanged and under the same name, in another module of
         # the package is a moved function, not a new helper
+        # likewise a method pulled up to a base class / pushed down to the subclasses, unchanged and under its name
+        for q, (h, params) in self.pinned_bodies.items():
+            if '.' in q and ':' not in q:
+                cname, nm = q.split('.', 1)
+                c = P.classes.get(cname)
+                if c is None or nm in c.methods or nm in c.props:
+                    continue
+                for k in P.mro(c)[1:] + P.all_subs(c):
+                    u = k.methods.get(nm) or k.props.get(nm)
+                    if u is not None and k.name + '.' + nm not in self.pinned and body_hash(u.node) == h:
+                        self.pinned = set(self.pinned) | {k.name + '.' + nm}
+                        self.log.append(('moved-method', u.loc(), '%s -> %s.%s' % (q, k.name, nm)))
         have = {m.short + ':' + k for m in P.mods.values() for k in m.funcs}
         for q, (h, params) in self.pinned_bodies.items():
             if ':' in q and q not in have:
@@ -630,6 +644,19 @@ class Canonicaliser:
         if b is None:
             return None
         mapping, prelude, rename = b
+        if mode == 'return':
+            # nothing of the caller runs after the folded body: its locals cannot be disturbed, the names are kept
+            rename = {}
+        else:
+            # a name of the helper only needs another name when the caller still reads its own afterwards
+            after = {x.id for x in ast.walk(caller_fn) if isinstance(x, ast.Name) and isinstance(x.ctx, ast.Load)
+                     and (getattr(x, 'lineno', 0), getattr(x, 'col_offset', 0)) > (call.lineno, call.col_offset)}
+            in_loop = any(isinstance(l, (ast.For, ast.While)) and any(x is call for x in ast.walk(l))
+                          for l in ast.walk(caller_fn))
+            if not in_loop:
+                rename = {k: v for k, v in rename.items() if k in after}
+            if mode == 'assign' and isinstance(target, ast.Name):
+                rename.pop(target.id, None)     # the helper's own name for its result is the caller's name for it
         body = copy.deepcopy(strip_doc(helper.node.body))
         if not body:
             return None
@@ -714,10 +741,11 @@ class Canonicaliser:
                                 continue
                 if isinstance(st, ast.Expr) and isinstance(st.value, ast.Call):
                     mode, call = 'expr', st.value
-                elif isinstance(st, ast.Assign) and len(st.targets) == 1 and isinstance(st.targets[0], ast.Name) \
-                        and isinstance(st.value, ast.Call):
+                elif isinstance(st, ast.Assign) and len(st.targets) == 1 and isinstance(st.value, ast.Call) and \
+                        (isinstance(st.targets[0], ast.Name) or (isinstance(st.targets[0], ast.Attribute) and pure(st.targets[0]))):
                     mode, call, target = 'assign', st.value, st.targets[0]
-                elif isinstance(st, ast.AnnAssign) and isinstance(st.target, ast.Name) and isinstance(st.value, ast.Call):
+                elif isinstance(st, ast.AnnAssign) and isinstance(st.value, ast.Call) and \
+                        (isinstance(st.target, ast.Name) or (isinstance(st.target, ast.Attribute) and pure(st.target))):
                     mode, call, target = 'assign', st.value, st.target
                 elif isinstance(st, ast.Return) and isinstance(st.value, ast.Call):
                     mode, call = 'return', st.value
@@ -896,18 +924,24 @@ class Canonicaliser:
             if isinstance(e, ast.Call) and isinstance(e.func, ast.Attribute) and e.func.attr == 'get' \
                     and 1 <= len(e.args) <= 2 and not e.keywords:
                 t = table_of(e.func.value)
-                if t is not None and pure(e.args[0]):
+                if t is not None and (pure(e.args[0]) or type_of_pure(e.args[0])):
                     return t, e.args[0], (e.args[1] if len(e.args) == 2 else ast.Constant(value=None)), False
             if isinstance(e, ast.Subscript) and isinstance(e.ctx, ast.Load):
                 t = table_of(e.value)
-                if t is not None and pure(e.slice):
+                if t is not None and (pure(e.slice) or type_of_pure(e.slice)):
                     return t, e.slice, None, True
             return None
+
+        def type_of_pure(e):
+            return isinstance(e, ast.Call) and isinstance(e.func, ast.Name) and e.func.id == 'type' and \
+                len(e.args) == 1 and not e.keywords and pure(e.args[0])
 
         def chain(key, table, make, default_body, at):
             first = cur = None
             for k, v in zip(table.keys, table.values):
-                test = ast.Compare(left=copy.deepcopy(key), ops=[ast.Eq()], comparators=[copy.deepcopy(k)])
+                # a dictionary keyed by classes and looked up with type(x) selects by identity of the class
+                op = ast.Is() if type_of_pure(key) else ast.Eq()
+                test = ast.Compare(left=copy.deepcopy(key), ops=[op], comparators=[copy.deepcopy(k)])
                 node = ast.If(test=test, body=make(v), orelse=[])
                 ast.copy_location(node, at)
                 if first is None:
@@ -932,11 +966,62 @@ class Canonicaliser:
                 if isinstance(st, ast.If) and getattr(st.test, '_selected', None) is not None:
                     out.extend(simplify(st.body if st.test._selected else st.orelse, name_true))
                     continue
+                # `if <selected value> is [not] None:`
+                t = st.test if isinstance(st, ast.If) else None
+                if isinstance(t, ast.Compare) and len(t.ops) == 1 and isinstance(t.ops[0], (ast.Is, ast.IsNot)) and \
+                        getattr(t.left, '_selected', None) is not None and isinstance(t.comparators[0], ast.Constant) \
+                        and t.comparators[0].value is None:
+                    is_none = not t.left._selected
+                    taken = is_none if isinstance(t.ops[0], ast.Is) else not is_none
+                    out.extend(simplify(st.body if taken else st.orelse, name_true))
+                    continue
                 for owner, f in block_lists(st):
                     new = simplify(getattr(owner, f), name_true)
                     if not new and f == 'body':
                         new = [ast.copy_location(ast.Pass(), st)]
                     setattr(owner, f, new)
+                out.append(st)
+            return out
+
+        def fold_key_tests(stmts, key, ki, all_keys):
+            """inside the branch `key == ki` (ki None: the default branch, key is none of all_keys) the tests of the key
+            against constants are decided."""
+            ktxt = ast.unparse(key)
+
+            def decide(t):
+                if isinstance(t, ast.UnaryOp) and isinstance(t.op, ast.Not):
+                    d = decide(t.operand)
+                    return None if d is None else not d
+                if isinstance(t, ast.Compare) and len(t.ops) == 1 and ast.unparse(t.left) == ktxt:
+                    op, r = t.ops[0], t.comparators[0]
+                    if isinstance(op, (ast.Eq, ast.Is, ast.NotEq, ast.IsNot)) and simple_const(r):
+                        vals = [ast.unparse(r)]
+                    elif isinstance(op, (ast.In, ast.NotIn)) and isinstance(r, (ast.List, ast.Tuple, ast.Set)) and \
+                            all(simple_const(e) for e in r.elts):
+                        vals = [ast.unparse(e) for e in r.elts]
+                    else:
+                        return None
+                    if ki is not None:
+                        res = ast.unparse(ki) in vals
+                    elif all(v in all_keys for v in vals):
+                        res = False
+                    else:
+                        return None
+                    return res if isinstance(op, (ast.Eq, ast.Is, ast.In)) else not res
+                return None
+            out = []
+            for st in stmts:
+                if isinstance(st, ast.If):
+                    d = decide(st.test)
+                    if d is not None:
+                        out.extend(fold_key_tests(st.body if d else st.orelse, key, ki, all_keys))
+                        continue
+                if not isinstance(st, (ast.FunctionDef, ast.AsyncFunctionDef, ast.ClassDef)):
+                    for owner, f in block_lists(st):
+                        new = fold_key_tests(getattr(owner, f), key, ki, all_keys)
+                        if not new and f == 'body':
+                            new = [ast.copy_location(ast.Pass(), st)]
+                        setattr(owner, f, new)
                 out.append(st)
             return out
 
@@ -995,9 +1080,15 @@ class Canonicaliser:
                         table, key, default, raises = lk
                         total = uses([fn], x)
                         if rest and 0 < uses(rest, x) == total and len(rest) <= 8:
-                            def make(v, rest=rest, x=x):
-                                return dup(rest, x, v) or [ast.copy_location(ast.Pass(), st)]
-                            dflt = keyerror(key, st) if raises else (dup(rest, x, default) or [ast.copy_location(ast.Pass(), st)])
+                            all_keys = [ast.unparse(k_) for k_ in table.keys]
+                            kv = {id(v_): k_ for k_, v_ in zip(table.keys, table.values)}
+
+                            def make(v, rest=rest, x=x, key=key, kv=kv, all_keys=all_keys):
+                                body = dup(rest, x, v)
+                                body = fold_key_tests(body, key, kv.get(id(v)), all_keys)
+                                return body or [ast.copy_location(ast.Pass(), st)]
+                            dflt = keyerror(key, st) if raises else (
+                                fold_key_tests(dup(rest, x, default), key, None, all_keys) or [ast.copy_location(ast.Pass(), st)])
                             out.append(chain(key, table, make, dflt, st))
                             self.log.append(('table-dispatch', unit.loc(st), '%s: %s (continuation duplicated)' % (unit.qual, x)))
                             changed[0] = True
@@ -1048,6 +1139,99 @@ class Canonicaliser:
     def _is_table(v):
         return isinstance(v, ast.Dict) and len(v.keys) >= 2 and all(k is not None and simple_const(k) for k in v.keys) \
             and all(pure(x) or isinstance(x, ast.Tuple) and all(pure(y) for y in x.elts) for x in v.values)
+
+    # ---------------------------------------------------------------- tests decided by an enclosing test
+    def fold_implied_tests(self, unit, fn):
+        """inside `if k == A:` (or `k in [A, B]`, or the else of such a test) a nested test of the same pure key against
+        constants may be decided: the dead branch is removed (k bound at most once in the function)."""
+        stores = stored_names(fn)
+        me = self
+
+        def vals_of(t):
+            """(key text, operator kind, constant texts) for `k == C`, `k is C`, `k in [..]` and their negations."""
+            neg = False
+            while isinstance(t, ast.UnaryOp) and isinstance(t.op, ast.Not):
+                t, neg = t.operand, not neg
+            if not (isinstance(t, ast.Compare) and len(t.ops) == 1 and pure(t.left)):
+                return None
+            root = t.left
+            while isinstance(root, (ast.Attribute, ast.Subscript)):
+                root = root.value
+            if not isinstance(root, ast.Name) or stores.get(root.id, 0) > 1:
+                return None
+            op, r = t.ops[0], t.comparators[0]
+            if isinstance(op, (ast.Eq, ast.Is, ast.NotEq, ast.IsNot)) and simple_const(r) and not isinstance(r, (ast.List, ast.Tuple, ast.Set)):
+                vs = {ast.unparse(r)}
+            elif isinstance(op, (ast.In, ast.NotIn)) and isinstance(r, (ast.List, ast.Tuple, ast.Set)) and \
+                    all(simple_const(e) for e in r.elts):
+                vs = {ast.unparse(e) for e in r.elts}
+            else:
+                return None
+            positive = isinstance(op, (ast.Eq, ast.Is, ast.In)) != neg
+            return ast.unparse(t.left), positive, vs
+
+        def decide(t, cons):
+            v = vals_of(t)
+            if v is None or v[0] not in cons:
+                return None
+            k, positive, vs = v
+            allowed, excluded = cons[k]
+            res = None
+            if allowed is not None:
+                if allowed <= vs:
+                    res = True
+                elif not (allowed & vs):
+                    res = False
+            if res is None and excluded and vs <= excluded:
+                res = False
+            if res is None:
+                return None
+            return res if positive else not res
+
+        def with_test(cons, t, branch):
+            v = vals_of(t)
+            if v is None:
+                return cons
+            k, positive, vs = v
+            allowed, excluded = cons.get(k, (None, set()))
+            new = dict(cons)
+            if positive == branch:
+                new[k] = (vs if allowed is None else allowed & vs, excluded)
+            else:
+                new[k] = (allowed - vs if allowed is not None else None, excluded | vs)
+            return new
+
+        def do_list(stmts, cons):
+            out = []
+            for st in stmts:
+                if isinstance(st, (ast.FunctionDef, ast.AsyncFunctionDef, ast.ClassDef)):
+                    out.append(st)
+                    continue
+                if isinstance(st, ast.If):
+                    d = decide(st.test, cons)
+                    if d is False:
+                        me.log.append(('implied-test', unit.loc(st), unit.qual))
+                        out.extend(do_list(st.orelse, cons))
+                        continue
+                    if d is True and st.orelse:
+                        # the test is kept (what it says stays a fact of its body), the dead alternative goes
+                        me.log.append(('implied-test', unit.loc(st), unit.qual))
+                        st.orelse = []
+                    st.body = do_list(st.body, with_test(cons, st.test, True)) or [ast.copy_location(ast.Pass(), st)]
+                    st.orelse = do_list(st.orelse, with_test(cons, st.test, False))
+                    out.append(st)
+                    if always_exits(st.body) and not st.orelse:
+                        cons = with_test(cons, st.test, False)
+                    continue
+                for owner, f in block_lists(st):
+                    inner = {} if isinstance(st, (ast.For, ast.While)) else cons
+                    new = do_list(getattr(owner, f), inner if isinstance(st, (ast.For, ast.While)) else cons)
+                    if not new and f == 'body':
+                        new = [ast.copy_location(ast.Pass(), st)]
+                    setattr(owner, f, new)
+                out.append(st)
+            return out
+        fn.body = do_list(fn.body, {}) or [ast.copy_location(ast.Pass(), fn)]
 
     # ---------------------------------------------------------------- local aliases
     def _rebinders(self):
@@ -1433,6 +1617,7 @@ class Canonicaliser:
     # ---------------------------------------------------------------- driver
     def local_passes(self, u, fn):
         """the rewritings that only look at one function."""
+        self.plain_assignments(u, fn)
         self.closures_inline(u, fn)
         self.idioms(u, fn)
         self.unroll_literal_loops(u, fn)
@@ -1447,6 +1632,46 @@ class Canonicaliser:
         self.order_compares(u, fn)
         self.discards(u, fn)
         self.merge_ifs(u, fn)
+        self.drop_pass(fn)
+
+    def plain_assignments(self, unit, fn):
+        """`x: T = v` (a local, T not needed to type x: a primitive / container annotation, or v is a call whose result
+        type is known anyway) -> `x = v`: the rules look at assignments, annotated or not."""
+        P = getattr(self, 'P', None)
+
+        def do_list(stmts):
+            out = []
+            for st in stmts:
+                if not isinstance(st, (ast.FunctionDef, ast.AsyncFunctionDef, ast.ClassDef)):
+                    for owner, f in block_lists(st):
+                        setattr(owner, f, do_list(getattr(owner, f)))
+                if isinstance(st, ast.AnnAssign) and st.value is not None and isinstance(st.target, ast.Name) and st.simple:
+                    keep = False
+                    if P is not None and hasattr(unit, 'mod') and not isinstance(st.value, ast.Call):
+                        try:
+                            t = P.ann(unit.mod, st.annotation)
+                        except Exception:
+                            t = None
+                        keep = bool(t) and t[0] in ('inst', 'cls')
+                    if not keep:
+                        new = ast.Assign(targets=[st.target], value=st.value)
+                        out.append(ast.fix_missing_locations(ast.copy_location(new, st)))
+                        continue
+                out.append(st)
+            return out
+        fn.body = do_list(fn.body)
+
+    @staticmethod
+    def drop_pass(fn):
+        """`pass` next to other statements (left by the rewritings) is removed."""
+        def do_list(stmts):
+            for st in stmts:
+                if not isinstance(st, (ast.FunctionDef, ast.AsyncFunctionDef, ast.ClassDef)):
+                    for owner, f in block_lists(st):
+                        setattr(owner, f, do_list(getattr(owner, f)))
+            kept = [st for st in stmts if not isinstance(st, ast.Pass)]
+            return kept or stmts[:1]
+        fn.body = do_list(fn.body)
 
     def run(self):
         P = self.P
@@ -1462,6 +1687,7 @@ class Canonicaliser:
         self.constants()
         for u in units:
             self.dispatch(u, u.node)
+            self.fold_implied_tests(u, u.node)
             self.local_passes(u, u.node)
         self.drop_absorbed()
         for u in units:
@@ -1544,6 +1770,12 @@ class Canonicaliser:
                     new = ast.Lambda(args=ast.arguments(posonlyargs=[], args=[ast.arg(arg='x')], kwonlyargs=[],
                                                         kw_defaults=[], defaults=[]), body=body)
                     me.log.append(('idiom', unit.loc(n), '%s: %s' % (unit.qual, nm)))
+                    return ast.fix_missing_locations(ast.copy_location(new, n))
+                if nm in ('any', 'all') and isinstance(f, ast.Name) and len(n.args) == 1 and not n.keywords and \
+                        isinstance(n.args[0], (ast.Tuple, ast.List)) and len(n.args[0].elts) >= 2 and \
+                        all(pure(e) for e in n.args[0].elts):
+                    new = ast.BoolOp(op=ast.Or() if nm == 'any' else ast.And(), values=list(n.args[0].elts))
+                    me.log.append(('idiom', unit.loc(n), '%s: %s over a literal' % (unit.qual, nm)))
                     return ast.fix_missing_locations(ast.copy_location(new, n))
                 if nm == 'fromkeys' and isinstance(f, ast.Attribute) and isinstance(f.value, ast.Name) and \
                         f.value.id == 'dict' and len(n.args) == 2 and isinstance(n.args[1], ast.Constant) and pure(n.args[0]):
@@ -1650,6 +1882,17 @@ class Canonicaliser:
             if isinstance(n, ast.Name) and isinstance(n.ctx, ast.Load):
                 loads[n.id] = loads.get(n.id, 0) + 1
 
+        def fold_constant_test(node):
+            """`if True: A else: B` -> A (a flag specialised by its constant value: jump threading)."""
+            if isinstance(node, ast.If):
+                t, neg = node.test, False
+                while isinstance(t, ast.UnaryOp) and isinstance(t.op, ast.Not):
+                    t, neg = t.operand, not neg
+                if isinstance(t, ast.Constant) and isinstance(t.value, bool):
+                    taken = node.body if (t.value != neg) else node.orelse
+                    return list(taken) or [ast.copy_location(ast.Pass(), node)]
+            return [node]
+
         def leaves(node):
             """the statement lists that end each branch of an if/elif/else chain (None when a branch is missing)."""
             out = [node.body]
@@ -1673,7 +1916,86 @@ class Canonicaliser:
                 st = stmts[i]
                 nxt = stmts[i + 1] if i + 1 < len(stmts) else None
                 done = False
-                if isinstance(st, ast.If) and nxt is not None and isinstance(nxt, (ast.Assign, ast.Expr, ast.Return)):
+                # default + overrides: `v = A` ; `if c: v = B [elif ..]` (no final else) ; the only reader of v
+                prev = out[-1] if out else None
+                if isinstance(st, ast.If) and nxt is not None and isinstance(nxt, (ast.Assign, ast.Expr, ast.Return)) and \
+                        isinstance(prev, ast.Assign) and len(prev.targets) == 1 and isinstance(prev.targets[0], ast.Name) \
+                        and pure(prev.value) and leaves(st) is None:
+                    v = prev.targets[0].id
+                    chain, cur = [], st
+                    while True:
+                        chain.append(cur)
+                        if len(cur.orelse) == 1 and isinstance(cur.orelse[0], ast.If):
+                            cur = cur.orelse[0]
+                        else:
+                            break
+                    last = chain[-1]
+                    bodies = [c.body for c in chain] + ([last.orelse] if last.orelse else [])
+                    n_in = sum(1 for x in ast.walk(nxt) if isinstance(x, ast.Name) and x.id == v and isinstance(x.ctx, ast.Load))
+                    stores_v = sum(1 for x in ast.walk(fn) if isinstance(x, ast.Name) and x.id == v
+                                   and isinstance(x.ctx, ast.Store))
+                    assigning = [b for b in bodies if b and isinstance(b[-1], ast.Assign) and len(b[-1].targets) == 1 and
+                                 isinstance(b[-1].targets[0], ast.Name) and b[-1].targets[0].id == v]
+                    inner_stores = sum(1 for b in bodies for s_ in b for x in ast.walk(s_)
+                                       if isinstance(x, ast.Name) and x.id == v and isinstance(x.ctx, ast.Store))
+                    if n_in >= 1 and loads.get(v) == n_in and assigning and inner_stores == len(assigning) and \
+                            stores_v == 1 + len(assigning) and all(pure(b[-1].value) or n_in == 1 for b in assigning) \
+                            and not any(isinstance(x, ast.Name) and x.id == v for c in chain for x in ast.walk(c.test)):
+                        for b in bodies:
+                            if b in assigning:
+                                new = Subst({v: b[-1].value}).visit(copy.deepcopy(nxt))
+                                ast.copy_location(new, b[-1])
+                                b[-1] = new
+                            else:
+                                b.append(Subst({v: prev.value}).visit(copy.deepcopy(nxt)))
+                        if not last.orelse:
+                            last.orelse = [Subst({v: prev.value}).visit(copy.deepcopy(nxt))]
+                        out.pop()           # the default assignment
+                        out.append(st)
+                        me.log.append(('sunk-statement', unit.loc(nxt), '%s: %s (default + overrides)' % (unit.qual, v)))
+                        i += 2
+                        continue
+                # a tail shared by all the branches of a complete chain: every leaf ends by binding the same locals
+                # (pure values), which only the statements that follow in the block read -> the tail goes back into
+                # each branch with the values in place of the locals
+                if isinstance(st, ast.If) and nxt is not None and not done:
+                    lv = leaves(st)
+                    rest = stmts[i + 1:]
+                    if lv and 1 <= len(rest) <= 10:
+                        def trailing(b):
+                            m, k = {}, 0
+                            for s_ in reversed(b):
+                                if isinstance(s_, ast.Assign) and len(s_.targets) == 1:
+                                    t, val = s_.targets[0], s_.value
+                                    if isinstance(t, ast.Name) and pure(val):
+                                        m.setdefault(t.id, val)
+                                        k += 1
+                                        continue
+                                    if isinstance(t, ast.Tuple) and isinstance(val, ast.Tuple) and \
+                                            len(t.elts) == len(val.elts) and \
+                                            all(isinstance(e, ast.Name) for e in t.elts) and all(pure(e) for e in val.elts):
+                                        for e, w in zip(t.elts, val.elts):
+                                            m.setdefault(e.id, w)
+                                        k += 1
+                                        continue
+                                break
+                            return m, k
+                        tr = [trailing(b) for b in lv]
+                        names = set(tr[0][0]) if tr and tr[0][0] else set()
+                        if names and len(names) >= 2 and all(set(m) == names and k >= 1 for m, k in tr):
+                            in_rest = {v: sum(1 for r_ in rest for x in ast.walk(r_) if isinstance(x, ast.Name) and x.id == v
+                                              and isinstance(x.ctx, ast.Load)) for v in names}
+                            st_rest = any(isinstance(x, ast.Name) and x.id in names and isinstance(x.ctx, ast.Store)
+                                          for r_ in rest for x in ast.walk(r_))
+                            if all(in_rest[v] >= 1 and loads.get(v) == in_rest[v] for v in names) and not st_rest:
+                                for b, (m, k) in zip(lv, tr):
+                                    del b[len(b) - k:]
+                                    for r_ in rest:
+                                        b.append(Subst(m).visit(copy.deepcopy(r_)))
+                                out.append(st)
+                                me.log.append(('sunk-statement', unit.loc(nxt), '%s: shared tail (%s)' % (unit.qual, sorted(names))))
+                                return out
+                if isinstance(st, ast.If) and nxt is not None and isinstance(nxt, (ast.Assign, ast.Expr, ast.Return, ast.If)):
                     lv = leaves(st)
                     if lv and all(b and isinstance(b[-1], ast.Assign) and len(b[-1].targets) == 1 and
                                   isinstance(b[-1].targets[0], ast.Name) for b in lv):
@@ -1688,7 +2010,7 @@ class Canonicaliser:
                                     val = b[-1].value
                                     new = Subst({v: val}).visit(copy.deepcopy(nxt))
                                     ast.copy_location(new, b[-1])
-                                    b[-1] = new
+                                    b[-1:] = fold_constant_test(new)
                                 out.append(st)
                                 me.log.append(('sunk-statement', unit.loc(nxt), '%s: %s' % (unit.qual, v)))
                                 i += 2
@@ -2163,8 +2485,59 @@ class Canonicaliser:
                     self.log.append(('absorbed-helper', u.loc(), u.qual))
 
 
+def _cache_file(root):
+    """a scratch file (system temporary directory) keyed by the content of the analysed sources and of the analyser:
+    the 20 checks of one tree share one canonicalisation. Purely an accelerator: absent or unreadable, it is rebuilt."""
+    import hashlib, tempfile
+    h = hashlib.sha1()
+    here = pathlib.Path(__file__).parent
+    for f in sorted(here.glob('*.py')) + [PINNED_FILE]:
+        h.update(f.read_bytes())
+    pkg = pathlib.Path(root) / 'supvisors'
+    for f in sorted(pkg.rglob('*.py')):
+        rel = f.relative_to(pkg)
+        if any(part in ('tests', 'test') for part in rel.parts):
+            continue
+        h.update(str(rel).encode())
+        h.update(f.read_bytes())
+    return pathlib.Path(tempfile.gettempdir()) / ('verif-canonical-%s.pkl' % h.hexdigest()[:24])
+
+
 def canonical_program(root):
     """Program of the tree under root, in canonical form; also returns the log of the rewritings applied."""
+    import os
+    import pickle
+    from .model import Program
+    cache = None
+    if not os.environ.get('VERIF_NO_CACHE'):
+        try:
+            cache = _cache_file(root)
+            if cache.exists():
+                trees, log, new_syms, missing = pickle.loads(cache.read_bytes())
+                P = Program(root, trees=trees)
+                P.normalisation_log, P.new_symbols, P.missing_symbols = log, new_syms, missing
+                return P
+        except Exception:
+            cache = cache if cache is not None else None
+    P = _canonical_program(root)
+    if cache is not None:
+        try:
+            import sys
+            sys.setrecursionlimit(max(sys.getrecursionlimit(), 20000))
+            tmp = cache.with_suffix('.%d.tmp' % os.getpid())
+            tmp.write_bytes(pickle.dumps(({n: m.tree for n, m in P.mods.items()}, P.normalisation_log, P.new_symbols,
+                                          P.missing_symbols)))
+            os.replace(tmp, cache)
+            # keep the scratch directory small
+            old = sorted(cache.parent.glob('verif-canonical-*.pkl'), key=lambda f: f.stat().st_mtime)
+            for f in old[:-40]:
+                f.unlink(missing_ok=True)
+        except Exception:
+            pass
+    return P
+
+
+def _canonical_program(root):
     from .model import Program
     P0 = Program(root)
     C = Canonicaliser(P0)
